@@ -47,7 +47,8 @@ Definition expected_reqs (cs : list cent) : list nat :=
 (* ---------- abstraction of a scenario to a small LTS instance ---------- *)
 Inductive cfault :=
 | CNone | CBreak (side : bool) (k : nat) | CCancel (which : N) (k : nat)
-| CWalk (a : nat) | CRead (a b : nat) | COpen (a : nat) | CHash (a : nat) | CNotify (a : nat).
+| CWalk (a : nat) | CRead (a b : nat) | COpen (a : nat) | CHash (a : nat) | CNotify (a : nat)
+| CVanish (sender : bool) (k : nat).
 
 Definition dec_fault_core (k a b : N) : option cfault :=
   let a' := N.to_nat a in let b' := N.to_nat b in
@@ -59,6 +60,7 @@ Definition dec_fault_core (k a b : N) : option cfault :=
   else if N.eqb k 5 then Some (COpen a')
   else if N.eqb k 6 then Some (CHash a')
   else if N.eqb k 7 then Some (CNotify a')
+  else if N.eqb k 8 then Some (CVanish (N.odd a) b')
   else None.
 
 (* (kind a b [hold [stall]]): hold <> 0 = the fault is held back until quiescence; stall = 1 + index
@@ -87,30 +89,38 @@ Definition fault_target (cs : list cent) (f : cfault) : option nat :=
 Definition indexed {A} (l : list A) : list (nat * A) := combine (seq 0 (length l)) l.
 Definition opt_list {A} (o : option A) : list A := match o with Some x => [x] | None => [] end.
 
-(* How many of the m entries that follow the held entry are kept.  The real receiver parks its
-   receive loop in dynamicWalker.update once walkChan (cap C) and the diff channel (cap C2) are
-   full and fill holds one more entry; the abstract instance has C = C2 = 1, so the count is
-   mapped threshold by threshold: not beyond walkChan, not beyond walkChan + diff channel, exactly
-   one more (in fill's hand), beyond (receive loop parked, sender blocked behind it). *)
+(* How many of the m entries that follow the held entry are kept.  While the diff is held on an
+   entry the ones behind it pile up, in this order: the diff channel (cap C2), the entry in fill's
+   hand, walkChan (cap C), the entry in the receive loop's hand (parked in dynamicWalker.update),
+   the stream buffer (cap), the entry the walker is sending; whatever is beyond that has not been
+   reported by the source walk yet (its per-entry context check is still to come).  The abstract
+   instance has C = C2 = 1 and a stream buffer of min(cap,1): the count is mapped segment by
+   segment, so that the last entry sits in the same place. *)
 Definition real_C : nat := N.to_nat FromSource.dynwalker_cap.
 Definition real_C2 : nat := N.to_nat (nth 1 FromSource.diff_chan_caps 128%N).
-Definition abs_followers (m : nat) : nat :=
-  if m <=? real_C then Nat.min m 1
-  else if m <=? real_C + real_C2 then 2
-  else if m <=? real_C + real_C2 + 1 then 3
-  else 5.
+Definition abs_followers (m cap : nat) : nat :=
+  let c := real_C in let c2 := real_C2 in let cap' := Nat.min cap 1 in
+  if m =? 0 then 0
+  else if m <=? c2 then 1
+  else if m <=? c2 + 1 then 2
+  else if m <=? c2 + 1 + c then 3
+  else if m <=? c2 + c + 2 then 4
+  else if m <=? c2 + c + 2 + cap then 4 + cap'
+  else if m <=? c2 + c + cap + 3 then 5 + cap'
+  else 6 + cap'.
 
 (* the entries kept: the fault target and the nearest requested file before it (a transfer in
    flight when the fault strikes); when the fault is held back until quiescence also the entries
    that pile up behind the target (see abs_followers); without a target the first requested file
    (else the first entry handled synchronously); gated: the first two requested files *)
 Definition as_backlog (e : entry) : entry := {| e_file := e_file e; e_chunks := e_chunks e; e_kind := ESame |}.
-Definition abstract_entries (cs : list cent) (target : option nat) (gated pile backlog_only : bool)
+Definition abstract_entries (cs : list cent) (target : option nat) (gated pile backlog_only : bool) (cap : nat)
   : list entry * nat (* new index of the target *) :=
   match target with
   | Some t =>
-      let before := find (fun ie => (fst ie <? t) && is_need (ce_kind (snd ie))) (indexed cs) in
-      let after := if pile then firstn (abs_followers (length cs - S t)) (skipn (S t) cs) else [] in
+      (* a held fault is released when everything is parked: transfers before the pivot are over *)
+      let before := if pile then None else find (fun ie => (fst ie <? t) && is_need (ce_kind (snd ie))) (indexed cs) in
+      let after := if pile then firstn (abs_followers (length cs - S t) cap) (skipn (S t) cs) else [] in
       (map (fun ie => to_entry 1 (snd ie)) (opt_list before) ++ map (to_entry 2) (opt_list (nth_error cs t))
        ++ map (to_entry 1) (firstn 1 after)
        ++ map (fun c => if backlog_only then as_backlog (to_entry 1 c) else to_entry 1 c) (skipn 1 after),
@@ -132,6 +142,7 @@ Definition abstract_fault (cs : list cent) (f : cfault) (hold : bool) (t' : nat)
   | Some _, CHash _ => FHashErr t'
   | Some _, CNotify _ => FNotifyErr t'
   | _, CBreak side k => FBreak side ((k =? 0) && negb hold)     (* held: the position is ignored *)
+  | _, CVanish sender k => FVanish sender ((k =? 0) && negb hold)
   | _, CCancel which k =>
       let at0 := (k =? 0) && negb hold in
       (* which context: 0 Send's, 1 Receive's, 2 the stream's, 3 one context shared by all three *)
@@ -163,16 +174,14 @@ Definition abstract (cs : list cent) (f : cfault) (gated hold : bool) (stall : o
                                   end
                       | None => false
                       end in
-  (* when the postponed event hits the sender (its context, the stream, or everything) the
-     entries behind the pivot only matter as a backlog that keeps the walker busy: the sender
-     serves none of them any more; all but the first are kept as unchanged entries to keep the
-     instance small *)
+  (* with a postponed cancellation / failure / vanishing peer the entries behind the pivot only
+     matter as a backlog (where the walker and the receive loop stand when the event happens):
+     all but the first are kept as unchanged entries, to keep the instance small *)
   let backlog_only := match f with
-                      | CCancel w _ => negb (N.eqb w 1)
-                      | CBreak side _ => negb side
+                      | CCancel _ _ | CBreak _ _ | CVanish _ _ => true
                       | _ => false
                       end in
-  let '(es, t') := abstract_entries cs pivot gated pile backlog_only in
+  let '(es, t') := abstract_entries cs pivot gated pile backlog_only cap in
   let f' := match ft with Some _ => abstract_fault cs f hold t' | None => abstract_fault cs f hold 0 end in
   let st' := match st, pivot with
              | Some i, Some t => if i =? t then Some t' else None   (* a stall elsewhere is not kept *)
@@ -194,11 +203,12 @@ Definition run_0401 (input impl : sx) : sx :=
   (* the optional 7th field (source kind: in-memory / on-disk walker) does not change the model *)
   let input6 := match input with
                 | SL [v; pr; f; fan; cap; chunk; _] => SL [v; pr; f; fan; cap; chunk]
+                | SL [v; pr; f; fan; cap; chunk; _; _] => SL [v; pr; f; fan; cap; chunk]   (* + transport *)
                 | _ => input
                 end in
   match input6, impl with
   | SL [v; pr; f; SN fan; SN cap; SN chunk],
-    SL [SN snd_; SN rcv; hung; SN leaks; fs; SL diffs; SN follow; errs; errr; fired; bigfan] =>
+    SL [SN snd_; SN rcv; hung; SN leaks; fs; SL diffs; SN follow; errs; errr; fired; bigfan; SN fins; SN finr] =>
     match dec_view v, dec_view pr, dec_fault f,
           sx_bool hung, sx_bool fs, sx_bool errs, sx_bool errr, sx_bool fired with
     | Some view, Some prior, Some (cf, hold, stall), Some hung', Some fs', Some errs', Some errr', Some fired' =>
@@ -221,18 +231,20 @@ Definition run_0401 (input impl : sx) : sx :=
                 end in
       let c4 := N.eqb leaks 0 in
       let c5 := N.eqb follow 0 in
+      (* Send returned nil => it was handed the receiver's FIN; Receive returned nil => it was handed the echo *)
+      let c6 := (negb (N.eqb snd_ 0) || negb (N.eqb fins 0)) && (negb (N.eqb rcv 0) || negb (N.eqb finr 0)) in
       let k3 := match cf, tgt with
                 | COpen _, Some a =>
-                    fs' && c1 && c3 && c4 && c5 &&
+                    fs' && c1 && c3 && c4 && c5 && c6 &&
                     match nth_error cs a, diffs with
                     | Some c, [SB d] => bytes_eqb d (ce_path c)
                     | _, _ => false
                     end
                 | _, _ => false
                 end in
-      let info := SL ([of_bool c1; of_bool c2; of_bool c3; of_bool c4; of_bool c5]
+      let info := SL ([of_bool c1; of_bool c2; of_bool c3; of_bool c4; of_bool c5; of_bool c6]
                       ++ (if k3 then [SL [SB tag_sig; SB sig_k3]] else [])) in
-      verdict model impl (c1 && c2 && c3 && c4 && c5) info
+      verdict model impl (c1 && c2 && c3 && c4 && c5 && c6) info
     | _, _, _, _, _, _, _, _ => v_malformed
     end
   | _, _ => v_malformed
